@@ -702,7 +702,7 @@ def check_c16(tier, seed):
     res.nontrivial = sum(1 for v in verdicts if v["nontrivial"])
     res.exhaustive = n_all == len(recs)
     res.extra["histories_model_checked"] = n_all
-    res.rule = ("MC: every history of the 17-call alphabet (global / per-type / recursive derives and attributes; insert, insert-if-absent, extend with valid arguments, a relative target, "
+    res.rule = ("MC: every history of the 18-call alphabet (global / per-type / recursive derives and attributes; insert, insert-if-absent, extend with valid arguments, a relative target, "
                 "parenthesised generics, a non-identifier source argument, a non-path target argument, a crate:: target) up to length 3 (quick) / 4 (thorough) with the invariants "
                 "'derives are unions by comprehension over the history', 'rule = last accepted insert', 'rejected call changes nothing', 'one rule per path', 'documented kinds'; "
                 "TV: a seeded sample (quick) of the maximal histories is replayed call by call on the real builders, after every call the result kind and the observable state "
@@ -826,6 +826,92 @@ def check_c13(tier, seed):
     res.assumptions = ["TLC and CommunityModules", "harness lexer: identifier/number runs and single punctuation characters, whitespace dropped", "ScaleInfo.tla (E0)"]
     if res.drift:
         print(f"DRIFT property=C13 cases={res.drift}")
+    return res.finish()
+
+
+def example_check(prop, mode, tv_module, key, tier, seed, rule, settings=None):
+    res = Result(prop, tier, seed)
+    wd = workdir(prop)
+    regs = registries_for_description(wd, tier, seed, res, "MC_C12.tla", ["G1c", "G8", "G1a_1"])
+    n_all = len(regs)
+    rnd = random.Random(seed)
+    if tier == "quick":
+        keep = [r for r in regs if not r["fam"].startswith("G1a")]
+        rest = [r for r in regs if r["fam"].startswith("G1a")]
+        rnd.shuffle(rest)
+        regs = keep + rest[:500]
+    seeds = list(range(0, 4)) if tier == "quick" else list(range(0, 16))
+    recs = [{"case": i, "fam": r["fam"], "reg": r["reg"], "ids": [], "seeds": seeds} for i, r in enumerate(regs)]
+    if settings is not None:
+        for r in recs:
+            r["settings"] = settings
+    write_ndjson(os.path.join(wd, "cases.ndjson"), recs)
+    harness_run(mode, os.path.join(wd, "cases.ndjson"), os.path.join(wd, "obs.ndjson"), jobs=12, stall=30)
+    obs = read_ndjson(os.path.join(wd, "obs.ndjson"))
+    for o in obs:
+        if o.get("crash"):
+            res.violations.append((f"{prop}: example generation did not terminate / aborted the process ({o['crash']})", recs[o["i"]]))
+        elif o.get("setup") != "ok":
+            raise ToolError(f"{mode} harness setup failed: {o.get('setup')}")
+    if res.violations:
+        return res.finish()
+    verdicts, summ = tv_parallel(os.path.join(SPEC, "tv", tv_module), os.path.join(SPEC, "tv", tv_module.replace(".tla", ".cfg")),
+                                 os.path.join(wd, "obs.ndjson"), wd, nproc=8, workers=2)
+    res.add_mc(summ)
+    expected = sum(len(o[key]) for o in obs)
+    if len(verdicts) != expected:
+        raise ToolError(f"TV judged {len(verdicts)} of {expected} examples")
+    account(res, prop, verdicts_with_fam(verdicts), lambda cid: recs[cid], [prop + "."], load_findings())
+    res.traces = len(verdicts)
+    res.evaluations = len(verdicts)
+    res.nontrivial = sum(1 for v in verdicts if v["nontrivial"])
+    res.extra.update({"registries_model_checked": n_all, "seeds": seeds,
+                      "outcomes": {k: sum(1 for v in verdicts if v["res"] == k) for k in sorted({v["res"] for v in verdicts})}})
+    res.rule = rule
+    res.samples = [{"family": r["fam"], "registry": r["reg"][:2], "seeds": seeds} for r in recs[:: max(1, len(recs) // 3)][:3]]
+    res.assumptions = ["TLC and CommunityModules", "harness projection of scale_value::Value / syn::Expr into trees (numbers as decimal strings)", "ScaleInfo.tla (E0)",
+                       "scale-value's encode_as_type / decode_as_type as the API the statement names; Values.tla's decoder as the independent oracle"]
+    return res.finish()
+
+
+EX_RULE = ("MC: over every (registry, id) of G1a (depth<=1), G1c (+ empty enums, 256-bit integers, zero-length arrays) and G8/G8b the specification's CanError "
+           "(in-progress marker, enum without variants) is false whenever the reachable types contain no cycle and no empty enum, and true on cycles; TV: the real crate generates an example for "
+           "every id of a seeded sample (quick) / all (thorough) of these registries and of the compiled corpus for seeds 0..3 (quick) / 0..15 (thorough), twice per seed; the enter/short/exit hook "
+           "events are stepped through the Transformer protocol actions with the policy (error on recursion, recompute on a hit); ")
+
+
+def check_c12(tier, seed):
+    return example_check("C12", "sval", "TV_C12.tla", "vals", tier, seed,
+                         EX_RULE + "TLC judges the projected value tree with ValueConforms, requires encode_as_type to succeed, decodes the bytes with the independent decoder of Values.tla "
+                         "(must consume exactly all bytes), requires decode_as_type to return an equal value with no input left, equal values for equal seeds and a value wherever "
+                         "CanError is false; non-trivial = a value of a non-primitive type; distinct by (registry, id, seed)")
+
+
+def check_c14(tier, seed):
+    base = {"root": "types", "alloc_std": True, "alloc": {"k": "path", "lead": True, "segs": ["std"], "args": []}, "docs": False, "codec": True,
+            "has_compact": True, "compact": {"k": "path", "lead": True, "segs": ["codec", "Compact"], "args": []},
+            "has_bits": True, "bits": {"k": "path", "lead": True, "segs": ["ext", "DecodedBits"], "args": []},
+            "has_compact_as": False, "compact_as": {"k": "path", "lead": True, "segs": ["codec", "CompactAs"], "args": []}, "derive_calls": [], "subs": []}
+    return example_check("C14", "rval", "TV_C14.tla", "exprs", tier, seed,
+                         EX_RULE + "the tokens are parsed with syn::Expr and TLC judges the projected expression with ExprConforms against the module the generator emits for the same registry and "
+                         "settings (literal paths without generics, field names and arity incl. the marker, typed literals in range, tuple/array/vec arity, Compact(..) on explicitly Compact-typed "
+                         "fields, Box::new optional); domain without bit sequences and 256-bit integers; non-trivial = an expression for a struct or enum; distinct by (registry, id, seed)",
+                         settings=base)
+
+
+def check_c06(tier, seed):
+    reps = 6 if tier == "quick" else 20
+    fresh = 2 if tier == "quick" else 6
+    res, recs, verdicts = simple_multi_run_check(
+        "C06", "MC_C06.tla", "MC_C06.cfg", "TV_C06.tla", None,
+        "MC: (a) de-duplication as a state machine whose Rename action picks any pending path (HashMap order): on registries with up to three same-path families every order ends in the "
+        "registry of the deterministic run; (b) the model output is the same for four registration orders of the same derives / attributes / substitutes; TV: every case is generated by the real "
+        f"crate under the four registration orders, each {reps}x in-process with freshly built settings (fresh hash seeds) and {fresh}x in fresh processes, de-duplicated and validated; TLC requires "
+        "one token fingerprint per case, strictly increasing derive and attribute lists (by the code points of their token strings), one derive attribute per item, equal de-duplicated "
+        "registries and validation results equal as sets; non-trivial = some item carries more than one derive; distinct by registry", tier, seed,
+        extra_run={"repeat": reps, "fresh": fresh, "dedup": True, "validate": 2})
+    # the other determinism observations ride on the generator-family pipeline: validation repeated with fresh maps (C11 cases)
+    res.extra["generations_per_case"] = 4 * (1 + reps + fresh)
     return res.finish()
 
 
@@ -979,7 +1065,7 @@ def check_e0_cmd(tier, seed):
     return 0
 
 
-CHECKS = {"C15": check_c15, "E0": check_e0_cmd, "C01": check_c01, "C02": check_c02, "C03": check_c03, "C04": check_c04, "C10": check_c10, "C05": check_c05, "C17": check_c17, "C18": check_c18, "C07": check_c07, "C08": check_c08, "C09": check_c09, "C16": check_c16, "C11": check_c11, "C13": check_c13}
+CHECKS = {"C15": check_c15, "E0": check_e0_cmd, "C01": check_c01, "C02": check_c02, "C03": check_c03, "C04": check_c04, "C10": check_c10, "C05": check_c05, "C17": check_c17, "C18": check_c18, "C07": check_c07, "C08": check_c08, "C09": check_c09, "C16": check_c16, "C11": check_c11, "C13": check_c13, "C12": check_c12, "C14": check_c14, "C06": check_c06}
 
 
 def selfcheck():
